@@ -130,18 +130,19 @@ class BrokerRig(object):
         from qstrader.execution.order import Order
         b = self.broker
         op = c["op"]
+        amt = c["fa"] if "fa" in c else (cur(c["a"]) if "a" in c else None)
         err = "ok"
         try:
             if op == "sub_acct":
-                b.subscribe_funds_to_account(cur(c["a"]))
+                b.subscribe_funds_to_account(amt)
             elif op == "wd_acct":
-                b.withdraw_funds_from_account(cur(c["a"]))
+                b.withdraw_funds_from_account(amt)
             elif op == "create":
                 b.create_portfolio(c["pid"], name="n-" + c["pid"])
             elif op == "sub_pf":
-                b.subscribe_funds_to_portfolio(c["pid"], cur(c["a"]))
+                b.subscribe_funds_to_portfolio(c["pid"], amt)
             elif op == "wd_pf":
-                b.withdraw_funds_from_portfolio(c["pid"], cur(c["a"]))
+                b.withdraw_funds_from_portfolio(c["pid"], amt)
             elif op == "submit":
                 self.oid += 1
                 order = Order(b.current_dt, c["asset"], c["qty"])
